@@ -42,8 +42,38 @@ pub fn tag_table() -> Vec<(Tag, String)> {
 
 const OPS: &[(Operator, Op)] = &[(Operator::Equal, Op::Eq), (Operator::NotEqual, Op::Ne), (Operator::Contain, Op::Contains), (Operator::Match, Op::Match), (Operator::NotMatch, Op::NotMatch)];
 
+thread_local! {
+    /// While set, every intermediate filter of `Plan::build` is USED before it is built upon: rendered by reference into
+    /// a throw-away raw command (as an application does that searches with a filter and later refines it) and, every
+    /// other time, replaced by its clone. A filter means what its construction says, whatever happened to it before.
+    pub static USE_BETWEEN_STEPS: std::cell::Cell<u32> = const { std::cell::Cell::new(0) };
+}
+
+fn used(f: Filter) -> Filter {
+    USE_BETWEEN_STEPS.with(|u| {
+        let n = u.get();
+        if n == 0 {
+            return f;
+        }
+        u.set(n + 1);
+        let _ = mpd_protocol::command::Command::new("search").argument(&f);
+        if n % 2 == 0 {
+            let c = f.clone();
+            let _ = mpd_protocol::command::Command::new("search").argument(&c);
+            drop(f);
+            c
+        } else {
+            f
+        }
+    })
+}
+
 impl Plan {
     pub fn build(&self, tags: &[(Tag, String)]) -> (Filter, Tree) {
+        let (f, t) = self.build_step(tags);
+        (used(f), t)
+    }
+    fn build_step(&self, tags: &[(Tag, String)]) -> (Filter, Tree) {
         match self {
             Plan::New(t, o, v) => (Filter::new(tags[*t].0.clone(), OPS[*o].0, v.clone()), Tree::Leaf { tag: tags[*t].1.clone(), op: OPS[*o].1, value: v.as_bytes().to_vec() }),
             Plan::TagEq(t, v) => (Filter::tag(tags[*t].0.clone(), v.clone()), Tree::Leaf { tag: tags[*t].1.clone(), op: Op::Eq, value: v.as_bytes().to_vec() }),
@@ -247,6 +277,41 @@ pub fn check_plan(cap: &mut SyncCapture, acc: &mut Acc, case: u64, plan: &Plan, 
     }
     // find/count/list for every filter; the longer builder paths for a rotating one
     let paths: [usize; 4] = [0, 1, 2, 3 + (hash_bytes(format!("{:?}", want).as_bytes()) % 8) as usize];
+    // one filter in three is built a second time with every intermediate filter rendered / cloned before it is built
+    // upon, and sent once more: it must be the same expression (checked only when the plain pass agreed)
+    let reused = if want.nodes() >= 2 && hash_bytes(format!("{:?}", want).as_bytes()) % 3 == 0 {
+        USE_BETWEEN_STEPS.with(|u| u.set(1 + (case as u32 % 2)));
+        let b = panics::catch(|| plan.build(tags));
+        USE_BETWEEN_STEPS.with(|u| u.set(0));
+        match b {
+            Ok((f, _)) => Some(f),
+            Err(p) => {
+                acc.violation(case, None, format!("building the filter (intermediate filters rendered and cloned on the way) panicked: {}", p.0), J::obj().set("plan", format!("{:?}", plan)));
+                return;
+            }
+        }
+    } else {
+        None
+    };
+    if let Some(f2) = &reused {
+        acc.inc("filters_built_from_used_intermediates");
+        let plain = panics::catch(|| roundtrip(cap, &filter, 0)).unwrap_or_else(|p| Err(format!("panic: {}", p.0)));
+        let again = panics::catch(|| roundtrip(cap, f2, 0)).unwrap_or_else(|p| Err(format!("panic: {}", p.0)));
+        if let (Ok(a), Ok(b)) = (&plain, &again) {
+            if a.normalize() == want && b.normalize() != want {
+                acc.violation(
+                    case,
+                    None,
+                    format!("a filter built from intermediate filters that had been rendered / cloned before denotes something else: built {} but parsed as {}", want.describe(), b.normalize().describe()),
+                    J::obj().set("expected", want.describe()).set("observed", b.normalize().describe()).set("plan", format!("{:?}", plan)),
+                );
+                return;
+            }
+        } else if plain.is_ok() && again.is_err() {
+            acc.violation(case, None, format!("a filter built from used intermediates no longer parses: {:?}", again.err()), J::obj().set("expected", want.describe()).set("plan", format!("{:?}", plan)));
+            return;
+        }
+    }
     for which in paths {
         acc.inc("evaluations");
         let got = panics::catch(|| roundtrip(cap, &filter, which)).unwrap_or_else(|p| Err(format!("panic: {}", p.0)));
@@ -384,7 +449,7 @@ impl Property for C11 {
     fn meta(&self, _cfg: &Cfg, _acc: &Acc) -> Meta {
         Meta {
             level: "exploration",
-            rule: "EXHAUSTIVE: all 820 value strings of length <=3 over {a, space, double quote, single quote, backslash, (, ), !, e-acute} plus 19 words (AND, ==, contains, nested-expression look-alikes, tabs, CR, CJK, emoji), each as a leaf with all five operators, negated, and on both sides of an AND; plus random trees (depth <=6, AND chains of width 2-6 in both association orders, negate()/! mixes, tag_exists/tag_absent shorthands, 31 named tags + any + 9 other valid names, values incl. 3000-byte ones); every filter is sent through find, count and list and one of eight longer builder paths (Count::group_by, CountGrouped::filter, List::filter.group_by, Find::sort.window, List::group_by.filter, and three in which `filter` is called twice and the documented overwrite must leave the second filter), the wire line is tokenised by the MPD tokenizer port, the filter argument parsed by the port of MPD's ParseExpression and compared with the mirror tree modulo AND flattening and tag-name case; one random tree in eight is tried again with a line feed inside one value, through all eleven builder paths: the command must be refused (panic) or sent faithfully, never written with another filter or without one; failing filters are attributed to known-finding classes by the values in the tree + failure mode and must round-trip once those values are neutralised; non-trivial = tree with >=2 nodes or a value with a special character or empty; distinct by normalised tree".into(),
+            rule: "EXHAUSTIVE: all 820 value strings of length <=3 over {a, space, double quote, single quote, backslash, (, ), !, e-acute} plus 19 words (AND, ==, contains, nested-expression look-alikes, tabs, CR, CJK, emoji), each as a leaf with all five operators, negated, and on both sides of an AND; plus random trees (depth <=6, AND chains of width 2-6 in both association orders, negate()/! mixes, tag_exists/tag_absent shorthands, 31 named tags + any + 9 other valid names, values incl. 3000-byte ones); every filter is sent through find, count and list and one of eight longer builder paths (Count::group_by, CountGrouped::filter, List::filter.group_by, Find::sort.window, List::group_by.filter, and three in which `filter` is called twice and the documented overwrite must leave the second filter), the wire line is tokenised by the MPD tokenizer port, the filter argument parsed by the port of MPD's ParseExpression and compared with the mirror tree modulo AND flattening and tag-name case; one filter in three (of those with >=2 nodes) is built a second time with every intermediate filter rendered by reference and/or cloned before it is negated / combined further, and must denote the same expression; one random tree in eight is tried again with a line feed inside one value, through all eleven builder paths: the command must be refused (panic) or sent faithfully, never written with another filter or without one; failing filters are attributed to known-finding classes by the values in the tree + failure mode and must round-trip once those values are neutralised; non-trivial = tree with >=2 nodes or a value with a special character or empty; distinct by normalised tree".into(),
             nontrivial_set: "nontrivial",
             assumptions: vec![
                 "ports of MPD util/Tokenizer.cxx and song/Filter.cxx (ParseExpression, ExpectWord, ExpectQuoted, ParseStringFilter) are the trusted base; self-tested at start-up".into(),
@@ -392,7 +457,7 @@ impl Property for C11 {
                 "pseudo tags with their own leaf syntax (base, modified-since, added-since, AudioFormat, prio) are not generated".into(),
             ],
             exhaustive: Some(true),
-            floors: vec![("unsendable_filters_tried".into(), 1000), ("exhaustive_short_values".into(), 839), ("random_trees".into(), 1000), ("roundtrip_ok".into(), 5000)],
+            floors: vec![("filters_built_from_used_intermediates".into(), 300), ("unsendable_filters_tried".into(), 1000), ("exhaustive_short_values".into(), 839), ("random_trees".into(), 1000), ("roundtrip_ok".into(), 5000)],
             extra: vec![("exhaustive_scope".into(), J::Str("short value strings x 8 placements; random trees are sampled".into()))],
         }
     }
